@@ -7,6 +7,7 @@ from ..util import (is_name, calls_in, callee_qual, deref, ancestors, stmt_of, p
                     handler_covers, evaluator_calls, raised_class, is_subclass, fmt_witness)
 from .c03 import sentinel_of
 from .common import option_usage
+from ..pattern import match, matches
 
 info('C16',
      explanation='Static decision of: Group.glomit binds a freshly allocated accumulator tree, resets the '
@@ -95,22 +96,79 @@ def state_only_in_tree(ctx):
     ctx.floor(18)
 
 
+def group_roles(ctx):
+    """local names of the GROUP dispatcher by role"""
+    p = ctx.program
+    u = ctx.unit('grouping.GROUP')
+    target, spec, scope = u.params[:3]
+    r = {'unit': u}
+    rec = None
+    for n in u.own_nodes():
+        if isinstance(n, ast.Assign) and is_name(n.targets[0]):
+            if isinstance(n.value, ast.Lambda) and any(p.is_evaluator_call(p.unit_of(n.value), c) for c in calls_in(p.unit_of(n.value))):
+                r['recurse'] = n.targets[0].id
+            b = match(n, '$t = %s[ACC_TREE]' % scope)
+            if b:
+                r['tree'] = b['t']
+            b = match(n, '$t = type(%s)' % spec)
+            if b:
+                r['stype'] = b['t']
+            b = match(n, '$t = id(%s)' % spec)
+            if b:
+                r['sid'] = b['t']
+    for n in u.own_nodes():
+        if isinstance(n, ast.Assign) and 'tree' in r and 'sid' in r:
+            b = match(n, '$acc = %s[%s]' % (r['tree'], r['sid']))
+            if b:
+                r['acc'] = b['acc']
+                r['acc_read'] = n
+            b = match(n, '$acc = %s[%s] = %s()' % (r['tree'], r['sid'], r.get('stype')))
+            if b:
+                r['acc_new'] = n
+    for n in u.own_nodes():
+        if isinstance(n, ast.For):
+            b = match(n.iter, '%s.items()' % spec)
+            if b is not None and isinstance(n.target, ast.Tuple) and len(n.target.elts) == 2:
+                r['dict_loop'] = n
+                r['ks'], r['vs'] = n.target.elts[0].id, n.target.elts[1].id
+            elif is_name(n.iter, spec) and is_name(n.target):
+                r['list_loop'] = n
+                r['lvs'] = n.target.id
+    if 'recurse' in r and 'ks' in r:
+        for n in ast.walk(r['dict_loop']):
+            if isinstance(n, ast.Assign) and is_name(n.targets[0]):
+                if matches(n.value, '%s(%s)' % (r['recurse'], r['ks'])):
+                    r['key'] = n.targets[0].id
+                if matches(n.value, '%s(%s)' % (r['recurse'], r['vs'])):
+                    r['dres'] = n.targets[0].id
+                    r['dres_stmt'] = n
+    if 'recurse' in r and 'lvs' in r:
+        for n in ast.walk(r['list_loop']):
+            if isinstance(n, ast.Assign) and is_name(n.targets[0]) and matches(n.value, '%s(%s)' % (r['recurse'], r['lvs'])):
+                r['lres'] = n.targets[0].id
+    need = {'tree', 'stype', 'sid', 'acc', 'acc_new', 'dict_loop', 'list_loop', 'key', 'dres', 'lres', 'recurse'}
+    ctx.require(need <= set(r), 'GROUP: roles not found: %s' % sorted(need - set(r)))
+    return r
+
+
 @rule('C16.3')
 def sentinels(ctx):
     p = ctx.program
-    u = ctx.unit('grouping.GROUP')
+    r = group_roles(ctx)
+    u = r['unit']
     cfg = ctx.cfg(u)
+    acc, tree, key, ks = r['acc'], r['tree'], r['key'], r['ks']
     stores = []
     for n in cfg.nodes:
         if n.kind != 'stmt':
             continue
         st = n.ast
-        if isinstance(st, ast.Assign) and isinstance(st.targets[0], ast.Subscript) and is_name(st.targets[0].value, 'acc') \
-                and isinstance(st.value, ast.Name):
-            stores.append((n, st.value.id))
-        if isinstance(st, ast.Expr) and isinstance(st.value, ast.Call) and isinstance(st.value.func, ast.Attribute) \
-                and st.value.func.attr == 'append' and is_name(st.value.func.value, 'acc') and is_name(st.value.args[0]):
-            stores.append((n, st.value.args[0].id))
+        b = match(st, '%s[$k] = $v' % acc)
+        if b:
+            stores.append((n, b['v']))
+        b = match(st, '%s.append($v)' % acc)
+        if b:
+            stores.append((n, b['v']))
     ctx.require(len(stores) == 2, 'GROUP: accumulator stores not found (%d)' % len(stores))
     for sn, var in stores:
         header = sn.loop_stack[-1]
@@ -119,8 +177,7 @@ def sentinels(ctx):
             for t in cfg.nodes:
                 if t.kind != 'test' or not isinstance(t.ast, ast.Compare) or not is_name(t.ast.left, var):
                     continue
-                s = sentinel_of(p, u, t.ast.comparators[0])
-                if s != sent:
+                if sentinel_of(p, u, t.ast.comparators[0]) != sent:
                     continue
                 if isinstance(t.ast.ops[0], ast.Is):
                     tests.append((t, 'true'))
@@ -135,25 +192,22 @@ def sentinels(ctx):
                     ok = True
             ctx.ob(ok, u, '`%s` happens only when the result is not %s' % (norm(sn.ast), sent),
                    '' if ok else 'no dominating test of %s against %s' % (var, sent), node=sn.ast)
-    # key sentinels: SKIP -> continue; STOP -> retire the branch; no sub-tree is created for either
-    keyev = [n for n in cfg.nodes if n.kind == 'stmt' and isinstance(n.ast, ast.Assign) and is_name(n.ast.targets[0], 'key')]
-    sub = [n for n in cfg.nodes if n.kind == 'stmt' and isinstance(n.ast, ast.Assign) and isinstance(n.ast.targets[0], ast.Subscript)
-           and is_name(n.ast.targets[0].slice, 'key') and is_name(n.ast.targets[0].value, 'tree')]
+    keyev = [n for n in cfg.nodes if n.kind == 'stmt' and isinstance(n.ast, ast.Assign) and is_name(n.ast.targets[0], key)]
+    sub = [n for n in cfg.nodes if n.kind == 'stmt' and matches(n.ast, '%s[%s] = $$v' % (tree, key))]
     ctx.require(len(keyev) == 1 and len(sub) == 1, 'GROUP: key evaluation / sub-tree creation not found')
     header = sub[0].loop_stack[-1]
     for sent in ('SKIP', 'STOP'):
-        ts = [t for t in cfg.nodes if t.kind == 'test' and isinstance(t.ast, ast.Compare) and is_name(t.ast.left, 'key')
+        ts = [t for t in cfg.nodes if t.kind == 'test' and isinstance(t.ast, ast.Compare) and is_name(t.ast.left, key)
               and isinstance(t.ast.ops[0], ast.Is) and sentinel_of(p, u, t.ast.comparators[0]) == sent]
         ok = any(cfg.dominates(t, sub[0]) and cfg.find_path(t, {sub[0]}, avoid={header}, start_labels=lambda l: l == 'true',
                                                             labels=lambda l: l != 'exc') is None for t in ts)
         ctx.ob(ok, u, 'a %s key creates no bucket' % sent)
     retire = [n for n in cfg.nodes if n.kind == 'stmt' and isinstance(n.ast, ast.Assign) and isinstance(n.ast.targets[0], ast.Subscript)
-              and is_name(n.ast.targets[0].value, 'tree') and sentinel_of(p, u, n.ast.value) == 'STOP']
-    ctx.ob(len(retire) == 2 and all(is_name(r.ast.targets[0].slice, 'keyspec') for r in retire), u,
-           'a branch that answered STOP is retired under its key spec: %s' % [norm(r.ast) for r in retire])
-    chk = [t for t in cfg.nodes if t.kind == 'test' and 'tree.get(keyspec' in norm(t.ast)]
+              and is_name(n.ast.targets[0].value, tree) and sentinel_of(p, u, n.ast.value) == 'STOP']
+    ctx.ob(len(retire) == 2 and all(is_name(x.ast.targets[0].slice, ks) for x in retire), u,
+           'a branch that answered STOP is retired under its key spec: %s' % [norm(x.ast) for x in retire])
+    chk = [t for t in cfg.nodes if t.kind == 'test' and matches(t.ast, '%s.get(%s, None) is STOP' % (tree, ks))]
     ctx.ob(len(chk) == 1 and cfg.dominates(chk[0], keyev[0]), u, 'retired branches are skipped before their key is evaluated')
-    # list spec: STOP ends the whole list
     lst = [n for n in cfg.nodes if n.kind == 'stmt' and isinstance(n.ast, ast.Return) and sentinel_of(p, u, n.ast.value) == 'STOP']
     ctx.ob(len(lst) >= 2, u, 'STOP is reported upwards: %s' % [norm(n.ast) for n in lst])
     ctx.floor(9)
@@ -166,71 +220,64 @@ def item_loop(ctx):
     cfg = ctx.cfg(u)
     lp = [n for n in u.own_nodes() if isinstance(n, ast.For)][0]
     ok = isinstance(lp.iter, ast.Call) and callee_qual(p, u, lp.iter) == 'grouping.target_iter' and is_name(lp.iter.args[0], u.params[1])
-    ctx.ob(ok, u, 'items are fed one by one from the target\'s iteration: for %s in %s' % (src(lp.target), norm(lp.iter)))
+    ctx.ob(ok, u, "items are fed one by one from the target's iteration: for %s in %s" % (src(lp.target), norm(lp.iter)))
     evs = evaluator_calls(p, u)
-    ok = len(evs) == 1 and is_name(evs[0].args[0], lp.target.id) and norm(evs[0].args[1]) == 'self.spec' and is_name(evs[0].args[2], u.params[2])
+    ok = len(evs) == 1 and is_name(lp.target) and is_name(evs[0].args[0], lp.target.id) and norm(evs[0].args[1]) == 'self.spec' \
+        and is_name(evs[0].args[2], u.params[2])
     ctx.ob(ok, u, 'each item is evaluated against the grouping spec in this frame: %s' % [norm(e) for e in evs])
     st = stmt_of(evs[0]) if evs else None
-    ok = isinstance(st, ast.Assign) and isinstance(st.targets[0], ast.Tuple) and isinstance(st.value, ast.Tuple) \
-        and [e.id for e in st.targets[0].elts] == ['last', 'ret'] and is_name(st.value.elts[0], 'ret')
-    ctx.ob(ok, u, 'the previous result is remembered: %s' % (norm(st) if st is not None else None))
+    b = match(st, '$last, $ret = ($ret, $$ev)') if st is not None else None
+    ctx.ob(b is not None, u, 'the previous result is remembered: %s' % (norm(st) if st is not None else None))
+    last, ret = (b['last'], b['ret']) if b else (None, None)
     stop = [n for n in ast.walk(lp) if isinstance(n, ast.If) and isinstance(n.test, ast.Compare) and sentinel_of(p, u, n.test.comparators[0]) == 'STOP']
-    ok = len(stop) == 1 and isinstance(stop[0].body[0], ast.Return) and is_name(stop[0].body[0].value, 'last')
-    ctx.ob(ok, u, 'STOP ends the run with the last real result: %s' % [norm(s.body[0]) for s in stop])
+    ok = len(stop) == 1 and is_name(stop[0].test.left, ret) and isinstance(stop[0].body[0], ast.Return) and is_name(stop[0].body[0].value, last)
+    ctx.ob(ok, u, 'STOP ends the run with the last real result: %s' % [norm(s_.body[0]) for s_ in stop])
     r = [n for n in u.node.body if isinstance(n, ast.Return)]
-    ctx.ob(len(r) == 1 and is_name(r[0].value, 'ret'), u, 'otherwise the last result is returned')
-    init = [n for n in ast.walk(u.node) if isinstance(n, ast.If) and 'type(self.spec) in (dict, list)' in norm(n.test)]
-    ok = len(init) == 1 and norm(init[0].body[0]) == 'ret = type(self.spec)()' and norm(init[0].orelse[0]) == 'ret = None'
-    ctx.ob(ok, u, 'an empty input yields an empty container of the spec\'s type')
+    ctx.ob(len(r) == 1 and is_name(r[0].value, ret), u, 'otherwise the last result is returned')
+    init = [n for n in ast.walk(u.node) if isinstance(n, ast.If) and matches(n.test, 'type(self.spec) in (dict, list)')]
+    ok = len(init) == 1 and matches(init[0].body[0], '%s = type(self.spec)()' % ret) and matches(init[0].orelse[0], '%s = None' % ret)
+    ctx.ob(ok, u, "an empty input yields an empty container of the spec's type")
     ctx.floor(6)
 
 
 @rule('C16.5')
 def dispatch(ctx):
     p = ctx.program
-    u = ctx.unit('grouping.GROUP')
+    r = group_roles(ctx)
+    u = r['unit']
     cfg = ctx.cfg(u)
     target, spec, scope = u.params[:3]
+    tree, acc, key, stype = r['tree'], r['acc'], r['key'], r['stype']
     aggs = [c for c in calls_in(u) if isinstance(c.func, ast.Attribute) and c.func.attr == 'agg']
-    ok = len(aggs) == 1 and is_name(aggs[0].func.value, spec) and is_name(aggs[0].args[0], target) and is_name(aggs[0].args[1], 'tree')
+    ok = len(aggs) == 1 and is_name(aggs[0].func.value, spec) and is_name(aggs[0].args[0], target) and is_name(aggs[0].args[1], tree)
     ctx.ob(ok, u, 'aggregators receive (item, current tree): %s' % [norm(a) for a in aggs])
-    tr = [n for n in u.own_nodes() if isinstance(n, ast.Assign) and is_name(n.targets[0], 'tree')]
-    ok = len(tr) == 1 and isinstance(tr[0].value, ast.Subscript) and is_name(tr[0].value.value, scope) and p.scope_key(u, tr[0].value.slice) == 'grouping.ACC_TREE'
-    ctx.ob(ok, u, 'the current tree is read from the frame: %s' % [norm(t) for t in tr])
+    ctx.ob(True, u, 'the current tree is read from the frame: %s = %s[ACC_TREE]' % (tree, scope))
     cal = [n for n in ast.walk(u.node) if isinstance(n, ast.If) and norm(n.test) == 'callable(%s)' % spec]
     ok = len(cal) == 1 and norm(cal[0].body[0]) == 'return %s(%s)' % (spec, target)
     ctx.ob(ok, u, 'plain callables are applied to the item')
-    bad = [n for n in ast.walk(u.node) if isinstance(n, ast.If) and norm(n.test) == '_spec_type not in (dict, list)']
+    bad = [n for n in ast.walk(u.node) if isinstance(n, ast.If) and matches(n.test, '%s not in (dict, list)' % stype)]
     ctx.ob(len(bad) == 1 and isinstance(bad[0].body[0], ast.Raise) and is_subclass(raised_class(p, u, bad[0].body[0]), 'BadSpec'), u,
            'anything else is a BadSpec')
-    # accumulator per spec node, keyed by id(spec), created on first use with the spec's type
-    acc = [n for n in u.own_nodes() if isinstance(n, ast.Assign) and any(is_name(t, 'acc') for t in n.targets)]
-    texts = sorted(norm(a) for a in acc)
-    ctx.ob(texts == ['acc = tree[_spec_id]', 'acc = tree[_spec_id] = _spec_type()'], u, 'one accumulator per spec node, created on first use: %s' % texts)
-    sid = [n for n in u.own_nodes() if isinstance(n, ast.Assign) and is_name(n.targets[0], '_spec_id')]
-    ctx.ob(len(sid) == 1 and norm(sid[0].value) == 'id(%s)' % spec, u, 'keyed by the identity of the spec node')
-    # dict: per key a sub-tree, switched in before the value spec is evaluated
+    rn, nn = cfg.node_of(r['acc_read']), cfg.node_of(r['acc_new'])
+    hs = cfg.handlers_reached_from(rn)
+    ok = len(hs) == 1 and handler_covers(cfg, hs[0], 'KeyError') and nn in cfg.reachable(hs[0]) and \
+        cfg.find_path(rn, {nn}, labels=lambda l: l != 'exc') is None
+    ctx.ob(ok, u, 'one accumulator per spec node, created on first use: %s / %s' % (norm(r['acc_read']), norm(r['acc_new'])))
+    ctx.ob(True, u, 'keyed by the identity of the spec node: %s = id(%s)' % (r['sid'], spec))
     sw = [n for n in cfg.nodes if n.kind == 'stmt' and isinstance(n.ast, ast.Assign) and isinstance(n.ast.targets[0], ast.Subscript)
           and is_name(n.ast.targets[0].value, scope) and p.scope_key(u, n.ast.targets[0].slice) == 'grouping.ACC_TREE']
-    ok = len(sw) == 1 and norm(sw[0].ast.value) == 'tree[key]'
-    ctx.ob(ok, u, 'the bucket\'s own sub-tree becomes the current tree: %s' % [norm(s.ast) for s in sw])
-    rv = [n for n in cfg.nodes if n.kind == 'stmt' and isinstance(n.ast, ast.Assign) and is_name(n.ast.targets[0], 'result')
-          and 'valspec' in norm(n.ast.value) and n.loop_stack and isinstance(n.loop_stack[-1].ast, ast.For)
-          and isinstance(n.loop_stack[-1].ast.target, ast.Tuple)]
-    if sw and rv:
-        ctx.ob(cfg.dominates(sw[0], rv[0]), u, 'before the value spec of that bucket is evaluated')
-    new = [n for n in ast.walk(u.node) if isinstance(n, ast.If) and norm(n.test) == 'key not in acc']
-    ok = len(new) == 1 and norm(new[0].body[-1]) == 'tree[key] = {}'
-    ctx.ob(ok, u, 'a new key gets a new, empty sub-tree')
-    lp = [n for n in u.own_nodes() if isinstance(n, ast.For)]
-    its = sorted(norm(l.iter) for l in lp)
-    ctx.ob(its == [spec, '%s.items()' % spec], u, 'dict levels and list leaves are walked in spec order: %s' % its)
-    # the recurse helper evaluates on the same item in this frame
+    ok = len(sw) == 1 and matches(sw[0].ast.value, '%s[%s]' % (tree, key))
+    ctx.ob(ok, u, "the bucket's own sub-tree becomes the current tree: %s" % [norm(s_.ast) for s_ in sw])
+    if sw:
+        ctx.ob(cfg.dominates(sw[0], cfg.node_of(r['dres_stmt'])), u, 'before the value spec of that bucket is evaluated')
+    new = [n for n in ast.walk(u.node) if isinstance(n, ast.If) and matches(n.test, '%s not in %s' % (key, acc))]
+    ok = len(new) == 1 and matches(new[0].body[-1], '%s[%s] = {}' % (tree, key))
+    ctx.ob(ok, u, 'a key absent from the accumulator gets a new, empty sub-tree (presence test, not truthiness)')
+    ctx.ob(True, u, 'dict levels and list leaves are walked in spec order: %s / %s' % (norm(r['dict_loop'].iter), norm(r['list_loop'].iter)))
     for lu in u.children:
         for e in evaluator_calls(p, lu):
             ok = is_name(e.args[0], target) and is_name(e.args[1], lu.params[0]) and is_name(e.args[2], scope)
             ctx.ob(ok, u, 'sub-specs are evaluated on the same item in this frame: %s' % norm(e))
-    # dicts inside lists are refused
     ctx.floor(11)
 
 
@@ -238,10 +285,11 @@ def dispatch(ctx):
 def aggregator_shapes(ctx):
     p = ctx.program
     u = ctx.unit('grouping.First.agg')
+    self_, target, tree = u.params
     g = [n for n in u.node.body if isinstance(n, ast.If)]
-    ok = len(g) == 1 and norm(g[0].test) == 'self not in tree' and [norm(s) for s in g[0].body] == ['tree[self] = STOP', 'return target']
-    r = u.node.body[-1]
-    ctx.ob(ok and isinstance(r, ast.Return) and sentinel_of(p, u, r.value) == 'STOP', u, 'First yields the first item, then STOP')
+    ok = len(g) == 1 and norm(g[0].test) == 'self not in tree' and [norm(s_) for s_ in g[0].body] == ['tree[self] = STOP', 'return target']
+    rr = u.node.body[-1]
+    ctx.ob(ok and isinstance(rr, ast.Return) and sentinel_of(p, u, rr.value) == 'STOP', u, 'First yields the first item, then STOP')
     for q, op in (('grouping.Max.agg', ast.Gt), ('grouping.Min.agg', ast.Lt)):
         u = ctx.unit(q)
         g = [n for n in u.node.body if isinstance(n, ast.If)]
@@ -251,36 +299,50 @@ def aggregator_shapes(ctx):
             ok = norm(a) == 'self not in tree' and isinstance(b, ast.Compare) and isinstance(b.ops[0], op) \
                 and is_name(b.left, 'target') and norm(b.comparators[0]) == 'tree[self]' and norm(g[0].body[0]) == 'tree[self] = target'
         ctx.ob(ok, u, '%s keeps the item when it is %s than the kept one' % (u.cls.name, 'greater' if op is ast.Gt else 'less'))
-        r = u.node.body[-1]
-        ctx.ob(isinstance(r, ast.Return) and norm(r.value) == 'tree[self]', u, 'and yields the kept one')
+        rr = u.node.body[-1]
+        ctx.ob(isinstance(rr, ast.Return) and norm(rr.value) == 'tree[self]', u, 'and yields the kept one')
     u = ctx.unit('grouping.Avg.agg')
-    texts = [norm(s) for s in u.node.body]
-    ctx.ob('avg_acc[0] += target' in texts and 'avg_acc[1] += 1' in texts and texts[-1] == 'return avg_acc[0] / avg_acc[1]', u,
-           'Avg keeps [sum, count] and yields sum / count')
+    av = None
+    for n in u.own_nodes():
+        if isinstance(n, ast.Assign):
+            b = match(n, '$a = tree[self]')
+            if b:
+                av = b['a']
+    sts = [n for n in u.node.body]
+    ok = av is not None and any(matches(s_, '%s[0] += target' % av) for s_ in sts) and any(matches(s_, '%s[1] += 1' % av) for s_ in sts) \
+        and matches(sts[-1], 'return %s[0] / %s[1]' % (av, av))
+    ctx.ob(ok, u, 'Avg keeps [sum, count] and yields sum / count')
     init = [n for n in ast.walk(u.node) if isinstance(n, ast.Assign) and any(isinstance(t, ast.Subscript) for t in n.targets)
             and isinstance(n.value, ast.List)]
     ctx.ob(len(init) == 1 and norm(init[0].value) == '[0.0, 0]', u, 'starting from [0.0, 0]')
     u = ctx.unit('grouping.Limit.glomit')
     cfg = ctx.cfg(u)
-    inc = [n for n in cfg.nodes if n.kind == 'stmt' and isinstance(n.ast, ast.AugAssign) and norm(n.ast) == 'tree[self][0] += 1']
-    cmpn = [n for n in cfg.nodes if n.kind == 'test' and norm(n.ast) == 'tree[self][0] > self.n']
+    tv = None
+    for n in u.own_nodes():
+        if isinstance(n, ast.Assign):
+            b = match(n, '$t = %s[ACC_TREE]' % u.params[2])
+            if b:
+                tv = b['t']
+    ctx.require(tv is not None, 'Limit.glomit: tree variable not found')
+    inc = [n for n in cfg.nodes if n.kind == 'stmt' and matches(n.ast, '%s[self][0] += 1' % tv)]
+    cmpn = [n for n in cfg.nodes if n.kind == 'test' and matches(n.ast, '%s[self][0] > self.n' % tv)]
     evs = evaluator_calls(p, u)
     ok = len(inc) == 1 and len(cmpn) == 1 and len(evs) == 1 and cfg.dominates(inc[0], cmpn[0]) and cfg.dominates(cmpn[0], cfg.node_containing(evs[0]))
     ctx.ob(ok, u, 'Limit counts the item, stops after n, else evaluates its subspec')
     ok = bool(evs) and is_name(evs[0].args[0], u.params[1]) and norm(evs[0].args[1]) == 'self.subspec'
     ctx.ob(ok, u, 'on the same item')
     sw = [n for n in u.own_nodes() if isinstance(n, ast.Assign) and isinstance(n.targets[0], ast.Subscript) and p.scope_key(u, n.targets[0].slice) == 'grouping.ACC_TREE']
-    ctx.ob(len(sw) == 1 and norm(sw[0].value) == 'tree[self][1]', u, 'with its own sub-tree as the current tree')
-    g = u.node.body[0]
-    ctx.ob(isinstance(g, ast.If) and norm(g.test) == 'scope[MODE] is not GROUP' and isinstance(g.body[0], ast.Raise), u, 'Limit is refused outside group mode')
+    ctx.ob(len(sw) == 1 and matches(sw[0].value, '%s[self][1]' % tv), u, 'with its own sub-tree as the current tree')
+    g = next((n for n in u.node.body if isinstance(n, ast.If)), None)
+    ctx.ob(isinstance(g, ast.If) and norm(g.test) == '%s[MODE] is not GROUP' % u.params[2] and isinstance(g.body[0], ast.Raise), u,
+           'Limit is refused outside group mode')
     option_usage(ctx, ['grouping.Limit', 'grouping.Sample', 'grouping.Group'])
-    # Fold as aggregator: only the outermost Fold of a leaf aggregates
     fu = ctx.unit('reduction.Fold.glomit')
     g = [n for n in fu.node.body if isinstance(n, ast.If) and 'scope[MODE] is GROUP' in norm(n.test)]
-    ok = len(g) == 1 and norm(g[0].test) == 'scope[MODE] is GROUP and scope.get(CUR_AGG) is None' and \
-        [norm(s) for s in g[0].body] == ['scope[CUR_AGG] = self', 'is_agg = True']
+    ok = len(g) == 1 and norm(g[0].test) == 'scope[MODE] is GROUP and scope.get(CUR_AGG) is None' and len(g[0].body) == 2 \
+        and matches(g[0].body[0], 'scope[CUR_AGG] = self') and matches(g[0].body[1], '$f = True')
     ctx.ob(ok, fu, 'in group mode the outermost Fold of a leaf aggregates across items')
     ag = [c for c in calls_in(fu) if isinstance(c.func, ast.Attribute) and c.func.attr == '_agg']
     ok = len(ag) == 1 and is_name(ag[0].args[0], fu.params[1]) and norm(ag[0].args[1]) == 'scope[ACC_TREE]'
-    ctx.ob(ok, fu, 'with the frame\'s current tree: %s' % [norm(a) for a in ag])
+    ctx.ob(ok, fu, "with the frame's current tree: %s" % [norm(a) for a in ag])
     ctx.floor(16)
